@@ -59,12 +59,13 @@ Proof.
   cbn [snd] in H. eapply upd_fold_nodup; eauto. eapply del_fold_nodup; eauto. rewrite H2. auto.
 Qed.
 
-Lemma do_full_resync_env : forall cfg p w b w', do_full_resync cfg p w = (b, w') -> w_env w' = w_env w.
+Lemma do_full_resync_env : forall cfg p w b w', plan_simple p = true -> do_full_resync cfg p w = (b, w') -> w_env w' = w_env w.
 Proof.
-  intros cfg p w b w' H. unfold do_full_resync in H.
+  intros cfg p w b w' PS H. unfold do_full_resync in H.
   destruct (nl_call p NLinkList w) as [f w1] eqn:E1. apply nl_call_frame in E1. destruct E1 as [A1 A2].
   destruct f; [injection H as <- <-; auto|].
   remember (refresh_all cfg (e_now (w_env w)) (e_links (w_env w1)) (w_st w1)) as s1.
+  rewrite (full_list_simple cfg p _ PS) in H.
   destruct (list_retry p NRouteListAll 5 (wst w1 s1)) as [failed w2] eqn:E2.
   apply list_retry_frame in E2. simpl in E2. destruct E2 as [B1 B2].
   destruct failed; [injection H as <- <-; congruence|].
@@ -73,15 +74,16 @@ Proof.
 Qed.
 
 Lemma attempt_full_nodup : forall cfg p w b w',
+  plan_simple p = true ->
   s_full (w_st w) = true -> attempt cfg p w = (b, w') ->
   NoDup (keys (e_routes (w_env w))) -> NoDup (keys (e_routes (w_env w'))).
 Proof.
-  intros cfg p w b w' FULL H ND. unfold attempt in H.
+  intros cfg p w b w' PS FULL H ND. unfold attempt in H.
   destruct (handle p w) as [ok w1] eqn:Eh. apply handle_frame in Eh. destruct Eh as [H1 H2].
   destruct ok; simpl in H.
   2:{ injection H as <- <-. simpl. rewrite H2. auto. }
   rewrite H1, FULL in H.
-  destruct (do_full_resync cfg p w1) as [e1 w2] eqn:Ef. apply do_full_resync_env in Ef.
+  destruct (do_full_resync cfg p w1) as [e1 w2] eqn:Ef. apply do_full_resync_env in Ef; [|exact PS].
   destruct e1.
   { injection H as <- <-. simpl. rewrite Ef, H2. auto. }
   destruct (apply_updates cfg p w2) as [e2 w3] eqn:Ea. apply apply_updates_nodup in Ea; [|rewrite Ef, H2; auto].
@@ -116,10 +118,11 @@ Proof.
   cbn [snd] in H. rewrite (upd_fold_full _ _ _ _ _ _ _ H), (del_fold_full _ _ _ _ _ _ _ Ed). congruence.
 Qed.
 
-Lemma do_full_resync_done : forall cfg p w w', do_full_resync cfg p w = (false, w') -> s_full (w_st w') = false.
+Lemma do_full_resync_done : forall cfg p w w', plan_simple p = true -> do_full_resync cfg p w = (false, w') -> s_full (w_st w') = false.
 Proof.
-  intros cfg p w w' H. unfold do_full_resync in H.
+  intros cfg p w w' PS H. unfold do_full_resync in H.
   destruct (nl_call p NLinkList w) as [f w1]. destruct f; [discriminate|].
+  rewrite (full_list_simple cfg p _ PS) in H.
   destruct (list_retry p NRouteListAll 5 _) as [failed w2]. destruct failed; [discriminate|].
   destruct (absorb cfg (e_now (w_env w)) true (table_routes cfg (w_env w2)) (w_st w2)) as [s2 seen].
   injection H as <-. reflexivity.
@@ -130,17 +133,18 @@ Proof. intros. unfold cleanup_grace. destruct (negb _); reflexivity. Qed.
 
 (* an attempt that was to run the full resync and leaves it pending has not touched the kernel *)
 Lemma attempt_full_env : forall cfg p w b w',
+  plan_simple p = true ->
   s_full (w_st w) = true -> attempt cfg p w = (b, w') -> s_full (w_st w') = true -> w_env w' = w_env w.
 Proof.
-  intros cfg p w b w' FULL H F'. unfold attempt in H.
+  intros cfg p w b w' PS FULL H F'. unfold attempt in H.
   destruct (handle p w) as [ok w1] eqn:Eh. apply handle_frame in Eh. destruct Eh as [H1 H2].
   destruct ok; simpl in H.
   2:{ injection H as <- <-. simpl. auto. }
   rewrite H1, FULL in H.
   destruct (do_full_resync cfg p w1) as [e1 w2] eqn:Ef.
   destruct e1.
-  { injection H as <- <-. simpl. apply do_full_resync_env in Ef. congruence. }
-  apply do_full_resync_done in Ef.
+  { injection H as <- <-. simpl. apply do_full_resync_env in Ef; [|exact PS]. congruence. }
+  apply do_full_resync_done in Ef; [|exact PS].
   destruct (apply_updates cfg p w2) as [e2 w3] eqn:Ea. apply apply_updates_full in Ea.
   destruct e2; injection H as <- <-; simpl in F'; rewrite ?cleanup_grace_full in F'; congruence.
 Qed.
@@ -162,13 +166,14 @@ Definition converged (cfg : config) (e0 : env) (s' : st) (e' : env) : Prop :=
        lookup kkey_eqb (e_routes e') kk = Some r).
 
 Lemma apply_converges_partial : forall cfg p s e s' e',
+  plan_simple p = true ->
   NoDup (keys (e_routes e)) ->
   s_full s = true ->
   last_attempt_full cfg p s e = true ->
   apply cfg p s e = (false, s', e') ->
   converged cfg e s' e'.
 Proof.
-  intros cfg p s e s' e' ND FULL LF H. unfold apply in H. unfold last_attempt_full in LF.
+  intros cfg p s e s' e' PS ND FULL LF H. unfold apply in H. unfold last_attempt_full in LF.
   set (w0 := {| w_st := s; w_env := e; w_cnt := []; w_cached := s_cached s; w_reopen := s_reopen s |}) in *.
   assert (s_full (w_st w0) = true) as FULL0 by exact FULL.
   assert (NoDup (keys (e_routes (w_env w0)))) as ND0 by exact ND.
@@ -178,7 +183,7 @@ Proof.
             attempt cfg p wa = (false, w2) ->
             converged cfg e (upd_conn (w_st w2) (w_cached w2) (w_reopen w2)) (w_env w2)) as KEY.
   { intros w2 R2 wa NDa Fa Ea Aa.
-    destruct (full_attempt_converges cfg p wa w2 NDa Fa Aa R2) as [X [Y Z]].
+    destruct (full_attempt_converges cfg p wa w2 PS NDa Fa Aa R2) as [X [Y Z]].
     unfold converged. cbn [s_desired upd_conn].
     split; [exact X|]. split.
     - intros k r. rewrite (ours_ext cfg (upd_conn (w_st w2) (w_cached w2) (w_reopen w2)) (w_st w2)) by reflexivity.
@@ -212,22 +217,25 @@ Qed.
 
 (* the three parts of `converged`, separately *)
 Lemma apply_converges : forall cfg p s e s' e',
+  plan_simple p = true ->
   NoDup (keys (e_routes e)) -> s_full s = true -> last_attempt_full cfg p s e = true ->
   apply cfg p s e = (false, s', e') ->
   forall k d, lookup rkey_eqb (s_desired s') k = Some d -> tbl cfg e' k = Some d.
-Proof. intros cfg p s e s' e' ND F L A. destruct (apply_converges_partial _ _ _ _ _ _ ND F L A) as [X _]. exact X. Qed.
+Proof. intros cfg p s e s' e' PS ND F L A. destruct (apply_converges_partial _ _ _ _ _ _ PS ND F L A) as [X _]. exact X. Qed.
 
 Lemma apply_stale_removed : forall cfg p s e s' e',
+  plan_simple p = true ->
   NoDup (keys (e_routes e)) -> s_full s = true -> last_attempt_full cfg p s e = true ->
   apply cfg p s e = (false, s', e') ->
   forall k r, lookup rkey_eqb (s_desired s') k = None -> tbl cfg e' k = Some r ->
        kroute_is_ours cfg s' r = true -> in_grace cfg (e_now e') s' (kr_ifx r) = true.
-Proof. intros cfg p s e s' e' ND F L A. destruct (apply_converges_partial _ _ _ _ _ _ ND F L A) as [_ [Y _]]. exact Y. Qed.
+Proof. intros cfg p s e s' e' PS ND F L A. destruct (apply_converges_partial _ _ _ _ _ _ PS ND F L A) as [_ [Y _]]. exact Y. Qed.
 
 Lemma apply_foreign_untouched : forall cfg p s e s' e',
+  plan_simple p = true ->
   NoDup (keys (e_routes e)) -> s_full s = true -> last_attempt_full cfg p s e = true ->
   apply cfg p s e = (false, s', e') ->
   forall kk r, lookup kkey_eqb (e_routes e) kk = Some r ->
        (fst kk <> c_table cfg \/ (kroute_is_ours cfg s' r = false /\ lookup rkey_eqb (s_desired s') (snd kk) = None)) ->
        lookup kkey_eqb (e_routes e') kk = Some r.
-Proof. intros cfg p s e s' e' ND F L A. destruct (apply_converges_partial _ _ _ _ _ _ ND F L A) as [_ [_ Z]]. exact Z. Qed.
+Proof. intros cfg p s e s' e' PS ND F L A. destruct (apply_converges_partial _ _ _ _ _ _ PS ND F L A) as [_ [_ Z]]. exact Z. Qed.
